@@ -1669,6 +1669,12 @@ pub fn corpus() -> Vec<(&'static str, Prog, Vec<usize>, usize)> {
                  vec![13, 5, 6], vec![7, 6], vec![12, 5]],
         );
         let script: Vec<usize> = std::iter::repeat(0).take(400).collect();
+        // a failed upgrade leaves its addition in the count word: the NEXT upgrade must fail as well (C05)
+        let t0b = (
+            vec![(1u8, 1usize), (2u8, 1usize)],
+            vec![vec![7, 0], vec![25, 6], vec![13, 1, 2], vec![7, 2], vec![13, 1, 3], vec![7, 3], vec![13, 1, 4], vec![7, 4], vec![12, 1], vec![25, 4]],
+        );
+        out.push(("c05_repeated_upgrade_after_destruction", Prog { g0: 2, ncells: 0, nobj: 1, threads: vec![t0b] }, script.clone(), 64));
         out.push(("d4_upgrade_after_cascade", Prog { g0: 5, ncells: 0, nobj: 2, threads: vec![t0] }, script, 64));
     }
     // D7: a dropper stalled between reading the epoch and publishing its stamp must not make a child
